@@ -79,6 +79,7 @@ def check(pid, tier, seed, only=None, jobs=None):
 
     # 1. stored witnesses of known findings (open: expected to reproduce; fixed: must not)
     known = load_known(pid)
+    known_status = {}      # finding id -> [reproduced witnesses, total witnesses, first outcome]
     for kf in known:
         for w in kf.get("witnesses", []):
             r = replay(pid, w["module"], w["fn"], w.get("config", {}), w["args"])
@@ -86,20 +87,20 @@ def check(pid, tier, seed, only=None, jobs=None):
                 harness_errors.append("known-finding witness %s: %s" % (kf["id"], r.get("error")))
                 continue
             if kf["status"] == "open":
+                st = known_status.setdefault(kf["id"], [0, 0, None])
+                st[1] += 1
                 if r.get("reproduced"):
-                    known_lines.append("KNOWN-FINDING: property=%s %s [%s] witness %s(%s) -> %s" % (
-                        pid, kf["what"], kf["id"], w["fn"], json.dumps(w["args"]), r.get("outcome")))
+                    st[0] += 1
+                    st[2] = st[2] or "%s(%s) -> %s %s" % (w["fn"], json.dumps(w["args"].get("__kw__", w["args"])), r.get("outcome"), r.get("explain") or "")
                 else:
-                    print("NOTE known finding %s no longer reproduces on this tree (%s)" % (kf["id"], r.get("outcome")))
+                    print("NOTE a stored witness of known finding %s no longer reproduces on this tree (%s)" % (kf["id"], r.get("outcome")))
             else:  # fixed: suppresses nothing; a reproducing witness is a regression
                 if r.get("reproduced"):
                     cexp = os.path.join(BUILD, pid, "cex", "regress-%s.json" % kf["id"])
                     json.dump({"pid": pid, "module": w["module"], "fn": w["fn"], "config": w.get("config", {}),
                                "args": w["args"], "outcome": r.get("outcome"), "note": "fixed finding returned: " + kf["id"]},
                               open(cexp, "w"), indent=1)
-                    violations.append((kf["id"], cexp, r.get("outcome")))
-    for line in known_lines:
-        print(line)
+                    violations.append((kf["id"], cexp, "%s %s" % (r.get("outcome"), r.get("explain") or "")))
 
     # 2. the obligations
     results = []
@@ -218,13 +219,21 @@ def check(pid, tier, seed, only=None, jobs=None):
             a["obligations"] += 1
             a["example"] = a["example"] or kr.get("example")
     for kf in known:
+        if kf["status"] != "open":
+            continue
         a = agg.get(kf["id"])
-        if a and kf["status"] == "open":
-            line = "KNOWN-FINDING: property=%s %s [%s] %d listed inputs in %d obligations of this run, %d still reproduce; e.g. %s" % (
-                pid, kf["what"], kf["id"], a["listed"], a["obligations"], a["reproduced"], a["example"])
-            print(line)
-            known_lines.append(line)
+        st = known_status.get(kf["id"], [0, 0, None])
+        if st[0] == 0 and not (a and a["reproduced"]):
+            continue
+        line = "KNOWN-FINDING: property=%s %s [%s] stored witnesses reproducing %d/%d" % (pid, kf["what"], kf["id"], st[0], st[1])
+        if st[2]:
+            line += "; e.g. " + st[2][:300]
+        if a:
+            line += "; listed inputs in this run's obligations: %d in %d obligations, %d still reproduce" % (a["listed"], a["obligations"], a["reproduced"])
             witnesses_replayed += a["listed"]
+        witnesses_replayed += st[1]
+        print(line)
+        known_lines.append(line)
     for s in inconclusive:
         print("INCONCLUSIVE", s)
     for s in harness_errors:
